@@ -18,6 +18,7 @@ theorem step_inert (roots : List Trie) (st : State) (ev : Ev)
   | leave k =>
     by_cases hs : st.safeCalls > 0
     · cases k <;> simp [State.step, hs, hc, hr]
+      split <;> simp [finish_eq]
     · cases k with
       | var n => simp [State.step, hs, finish_eq, State.onVar, hev n rfl, hc, hr]
       | objDeref p => simp [State.step, hs, State.onPropAccess, hc, hr]
